@@ -374,6 +374,13 @@ fn qualifier(m: &M, op: &Op) -> String {
                 }
             }
         }
+        Op::MoveRows { sheet, .. } | Op::MoveColumns { sheet, .. } | Op::InsertRows { sheet, .. } | Op::InsertColumns { sheet, .. } => {
+            // the known inexact undos of structural edits all involve array formulas on the sheet
+            let all = Ar::new(*sheet, 1, 1, 64, 64);
+            if area_has(m, &all, &|c| matches!(c, Cell::SpillCell { .. } | Cell::ArrayFormula { .. })) {
+                q.push_str("-arrays");
+            }
+        }
         Op::SetColumnsWidth { sheet, start, end, .. } => {
             if let Ok(ws) = wb.worksheet(*sheet) {
                 if (*start..=*end).any(|c| ws.is_column_hidden(c).unwrap_or(false)) {
@@ -673,7 +680,8 @@ fn run_c02(cmds: &[Cmd], want: Option<&str>) -> Run {
     let mut m = new_model();
     // spec: timeline of snapshots + cursor; kinds[k] is the op that leads from position k to k+1
     let mut timeline: Vec<Snap> = vec![snap_en(&mut m, false)];
-    let mut kinds: Vec<&'static str> = vec![];
+    // (op kind + the qualifier of the state it ran in, like the C01 oracle)
+    let mut kinds: Vec<String> = vec![];
     let mut cursor: usize = 0;
     let mut sigs_seen: BTreeSet<String> = BTreeSet::new();
     // `-lang`: a language switch happened earlier in this history (recorded texts are re-parsed in the
@@ -703,6 +711,7 @@ fn run_c02(cmds: &[Cmd], want: Option<&str>) -> Run {
                     lang = "-lang";
                 }
                 let kind = op.kind();
+                let kq = format!("{}{}", kind, qualifier(&m, op));
                 let d0 = m.verif_history_len();
                 let res = apply(&mut m, op);
                 let d1 = m.verif_history_len();
@@ -714,7 +723,7 @@ fn run_c02(cmds: &[Cmd], want: Option<&str>) -> Run {
                     timeline.truncate(cursor + 1);
                     kinds.truncate(cursor);
                     timeline.push(snap_en(&mut m, false));
-                    kinds.push(kind);
+                    kinds.push(kq);
                     cursor += 1;
                     if d1.1 != 0 {
                         fail!(idx, "c02:new-op-kept-redo".to_string(), format!("after op {} the redo stack has depth {}", op.encode(), d1.1));
@@ -731,7 +740,7 @@ fn run_c02(cmds: &[Cmd], want: Option<&str>) -> Run {
             }
             Cmd::Undo => {
                 if let Err(e) = catch(|| m.undo()) {
-                    let k = if cursor > 0 { kinds[cursor - 1] } else { "nothing" };
+                    let k = if cursor > 0 { kinds[cursor - 1].clone() } else { "nothing".to_string() };
                     fail!(idx, format!("c02:undo-returned-err:{k}"), format!("undo() -> Err({e})"));
                     out.tags.push("c02:aborted:undo-err".into());
                     break;
@@ -739,7 +748,7 @@ fn run_c02(cmds: &[Cmd], want: Option<&str>) -> Run {
                 if cursor > 0 {
                     cursor -= 1;
                     out.checked += 1;
-                    out.tags.push(format!("c02:undo:{}", kinds[cursor]));
+                    out.tags.push(format!("c02:undo:{}", kinds[cursor].split('-').next().unwrap_or("")));
                     let s = snap_en(&mut m, false);
                     if s != timeline[cursor] {
                         let d = snapshot_diff(&timeline[cursor], &s);
@@ -755,7 +764,7 @@ fn run_c02(cmds: &[Cmd], want: Option<&str>) -> Run {
             }
             Cmd::Redo => {
                 if let Err(e) = catch(|| m.redo()) {
-                    let k = if cursor < kinds.len() { kinds[cursor] } else { "nothing" };
+                    let k = if cursor < kinds.len() { kinds[cursor].clone() } else { "nothing".to_string() };
                     fail!(idx, format!("c02:redo-returned-err:{k}"), format!("redo() -> Err({e})"));
                     out.tags.push("c02:aborted:redo-err".into());
                     break;
@@ -763,7 +772,7 @@ fn run_c02(cmds: &[Cmd], want: Option<&str>) -> Run {
                 if cursor < kinds.len() {
                     cursor += 1;
                     out.checked += 1;
-                    out.tags.push(format!("c02:redo:{}", kinds[cursor - 1]));
+                    out.tags.push(format!("c02:redo:{}", kinds[cursor - 1].split('-').next().unwrap_or("")));
                     let s = snap_en(&mut m, false);
                     if s != timeline[cursor] {
                         let d = snapshot_diff(&timeline[cursor], &s);
